@@ -873,7 +873,15 @@ def evaluate(case, st_, excuse=(), size_guard=True):
                 st_.excluded['empty-coverage'] += 1
                 return out, None
             pyr = Pyramid(task.grid, case['meta'])
-            cov = Coverage(case['coverage'], case['grid']['srs'], task.grid.bbox)
+            try:
+                cov = Coverage(case['coverage'], case['grid']['srs'], task.grid.bbox)
+            except Exception as e:   # GEOS TopologyException etc. while building the *reference* geometry
+                import shapely.errors
+                if isinstance(e, (shapely.errors.ShapelyError, ValueError)):
+                    # the harness' own reference region cannot be built for this generated geometry: no verdict
+                    st_.excluded['reference-coverage-not-constructible'] += 1
+                    return out, None
+                raise
             pyrs.append(pyr)
             covs.append(cov)
             Es.append(tuple(Fr(v) for v in task.coverage.extent.bbox_for(task.grid.srs)))
